@@ -54,9 +54,9 @@ def masses_for(tau, thorough):
     return sorted(ms.items())
 
 
-def lmpdat(masses):
+def lmpdat(masses, labels=None):
     s = "generated (C14)\n\n%d atoms\n0 bonds\n0 angles\n0 dihedrals\n0 impropers\n\n%d atom types\n  0.000000  10.000000 xlo xhi\n  0.000000  10.000000 ylo yhi\n  0.000000  10.000000 zlo zhi\n\nMasses\n\n" % (len(masses), len(masses))
-    s += ''.join(" %d %r\n" % (i + 1, m) for i, m in enumerate(masses))
+    s += ''.join(" %d %r%s\n" % (i + 1, m, '' if labels is None else ' # ' + labels[i]) for i, m in enumerate(masses))
     s += "\nAtoms\n\n" + ''.join(" %d 1 %d 0.000000 %f 1.000000 1.000000\n" % (i + 1, i + 1, 1.0 + i) for i in range(len(masses)))
     return s
 
@@ -73,6 +73,7 @@ def plan(tier, seed):
             scs.append(dict(kind='mass', tau=ti, lo=i, hi=min(len(ms), i + 25)))
     scs += [dict(kind='cycle', lo=i, hi=min(len(TABLE), i + 10)) for i in range(0, len(TABLE), 10)]
     scs += [dict(kind='sequence', order=o) for o in range(len(SEQ_ORDERS))]
+    scs += [dict(kind='labelled', order=o) for o in range(6)]
     scs += [dict(kind='many', n=n, order=o, bad=b) for n in (9, 10, 11, 12, 100, len(TABLE), 256, 257, 300, 1000) for o in (0, 1) for b in (0, 1)]
     return dict(scenarios=scs, exhaustive=True, chunk=4,
                 menus=dict(table_entries=len(TABLE), tolerances=TAUS, routes=['guess_elements_from_masses', 'load_lmpdat single type', 'load_lmpdat mixed with non-atomic type', 'load_lmpdat mixed with valid type', 'write/read cycle per element', 'call histories with changing tolerances (same process)', 'many types in one call / file (9 ... 1000)']),
@@ -142,6 +143,26 @@ def run(sc, ctx):
                 out['violations'].append(viol('nearest' if route == 'helper' else 'loader', 'many-' + route, '%s with %d genuine element masses: %s; first wrong (index, mass, got, nearest) %r' % (
                     route, n, 'no elements (raised / type numbers)' if got is None else '%d elements' % len(got), first), sc))
         out['hashes'].add(h64(('many', n, sc['order'], sc['bad']))); out['nontrivial'] += 1; out['outcomes']['many types'] = 1
+        return out
+    if sc['kind'] == 'labelled':
+        # files whose Masses lines carry free-text labels, loaded one after the other in one process: the same labels stand for other
+        # masses in the next file; elements must follow the masses of the file at hand
+        files = [([12.0107, 1.00794], ['A', 'B']), ([14.0067, 15.9994], ['A', 'B']), ([500.0, 1.00794], ['A', 'B']), ([15.9994, 12.0107], ['B', 'A']), ([1.00794], ['A']), ([32.065, 35.453, 12.0107], ['A', 'B', 'C'])]
+        import itertools as _it
+        perm = list(_it.permutations(range(len(files))))[sc['order'] * 97 % 720]
+        for step, fi in enumerate(perm):
+            masses, labels = files[fi]
+            b, err = call(Atoms.load_lmpdat, io.StringIO(lmpdat(masses, labels)))
+            out['evals'] += 1; out['compared'] += 1
+            exps = [ref_mass(m, 0.1) for m in masses]
+            if err:
+                out['violations'].append(viol('loader', 'labelled-exc:' + exc_sig(err), 'load_lmpdat raised %r' % (err[0],), sc)); continue
+            got = [str(x) for x in b.atom_type_elements]
+            ok = (len(got) == len(masses) and all(g in e for g, e in zip(got, exps))) if all(exps) else got == [str(i + 1) for i in range(len(masses))]
+            if not ok:
+                out['violations'].append(viol('loader', 'labelled-history', 'file %d of the sequence %r (masses %r labelled %r): elements %r, the masses say %r' % (
+                    step + 1, [files[i][0] for i in perm[:step + 1]], masses, labels, got, [sorted(e) for e in exps] if all(exps) else 'type numbers'), sc))
+        out['hashes'].add(h64(('labelled', sc['order']))); out['nontrivial'] += 1; out['outcomes']['labelled files in sequence'] = 1
         return out
     if sc['kind'] == 'sequence':
         # histories of calls in one process: the answer for a mass must depend on the tolerance of *this* call only
